@@ -279,12 +279,18 @@ def run(ctx):
                 raise vp.ToolError(f"TLC failed on {name}: {res.error}\n{res.output[-3000:]}")
             vp.check_action_coverage(res, ["NStep", "LCas", "LStep"], name)
         if not q:
-            bad = dict(params, SkipOn=[1, 2])
-            d = gen_mc(ctx, "MF_skip", bad, [[0, 1], [1]], ["block", "try", "block"], 1, 2, False, False)
-            res = vp.tlc(d, "MF_skip", workers=8, timeout=900, libs=["lockfree"])
-            vp.record_tlc(ctx, "must-fail SkipOn={PENDING,NOTIFIED}", res, count=False)
+            # non-vacuity: the listener order of the defect repaired by 3224193 (state reset BEFORE the trigger buffer is
+            # emptied, on both paths) must be refuted. (The former must-fail instance "skip the trigger also on PENDING" is
+            # no longer refuted since that repair: with the buffer emptied first the protocol tolerates it - TLC, 2.5 * 10^6
+            # states for three notifiers - so it cannot serve as a vacuity guard any more.)
+            bad = dict(params, LSlow=["wait", "store_idle", "empty", "drain"], LFast=["reset_ni", "empty", "drain"])
+            d = gen_mc(ctx, "MF_order", bad, [[0, 1], [1]], ["block", "block"], 1, 2, False, False)
+            res = vp.tlc(d, "MF_order", workers=8, timeout=900, libs=["lockfree"])
+            vp.record_tlc(ctx, "must-fail listener order reset-before-empty", res, count=False)
+            if res.timed_out or (not res.ok and not res.violated):
+                raise vp.ToolError(f"must-fail instance could not be checked: {res.error}")
             if not res.violated:
-                raise vp.ToolError("must-fail instance (skip trigger on PENDING) was not refuted: model is vacuous")
+                raise vp.ToolError("must-fail instance (state reset before the buffer is emptied) was not refuted: model is vacuous")
     else:
         ctx.note("protocol structure not extracted: model argument not applicable to this build")
     ctx.coverage["rule"] = ("evaluations = scheduled executions + operations of free-running runs; distinct = distinct schedules")
